@@ -29,6 +29,9 @@ GStep == /\ Len(h) < D /\ UNCHANGED done
             \/ \E q \in Queries : live # {} /\ Clear(q) /\ Step("clear", 0, 0, 0, "", 0, q)
             \/ live # {} /\ Demote /\ Step("demote", 0, 0, 0, "", 0, "")
             \/ \E q \in Queries : live # {} /\ Query /\ Step("report", 0, 0, 0, "", 0, q)
+            \* a report that follows earlier text in the detector's buffer (no startChecking in between) states its own blocks only
+            \/ \E q \in {"all", "checking"} : live # {} /\ Query /\ Step("report", 0, 0, 0, "keep", 0, q)
+            \/ \E a \in Addrs : live # {} /\ Invalidate(a) /\ Step("inval", a, 0, 0, "", 0, "")
 \* a single deterministic closing step, so that simulation prints each sampled behaviour once
 GEnd == Len(h) = D /\ ~done /\ done' = TRUE /\ UNCHANGED <<vars, h>>
 GNext == GStep \/ GEnd
